@@ -18,8 +18,10 @@ def lang_context(lang, options=None, overrides=None):
 
 
 def gen_inprocess(types, root_dir, out, lang, order_seed=None, post_processors=None, templates_dir=None, options=None,
-                  support=False, overrides=None, omit_serialization_support=False, lctx=None):
-    """Generate `types` with the real DSDLCodeGenerator; returns {relative path: bytes}."""
+                  support=False, overrides=None, omit_serialization_support=False, lctx=None, pre_calls=()):
+    """Generate `types` with the real DSDLCodeGenerator; returns {relative path: bytes}.
+    pre_calls: keyword dictionaries of earlier generate_all() calls made on the SAME generator objects before the final one
+    (history of one generator: dry runs, other per-call options); the output directory is emptied before the final call."""
     import nunavut
     import nunavut.jinja
     ts = list(types)
@@ -33,9 +35,16 @@ def gen_inprocess(types, root_dir, out, lang, order_seed=None, post_processors=N
     if templates_dir is not None:
         kw["templates_dir"] = pathlib.Path(templates_dir)
     g = nunavut.jinja.DSDLCodeGenerator(ns, **kw)
+    s = nunavut.jinja.SupportGenerator(ns, **({"post_processors": post_processors} if post_processors is not None else {})) if support else None
+    for pk in pre_calls:
+        g.generate_all(**pk)
+        if s is not None:
+            s.generate_all(**pk)
+    if pre_calls:
+        import shutil
+        shutil.rmtree(out, ignore_errors=True)
     g.generate_all(omit_serialization_support=omit_serialization_support)
-    if support:
-        s = nunavut.jinja.SupportGenerator(ns, **({"post_processors": post_processors} if post_processors is not None else {}))
+    if s is not None:
         s.generate_all(omit_serialization_support=omit_serialization_support)
     return common.read_files(out), ns
 
